@@ -558,3 +558,58 @@ Example C08_community_text_nonvacuous :
                            ItII c_BGP_EXT_COM_EVPN_ESI_MPLS_LABEL 1 1000; ItS 39321 (codes "x")] = Ok (Some b) /\
              len b = 27 /\ valid_attrs cfg0 b = true).
 Proof. exact (conj com_construct_example (conj large_construct_example ec_construct_example)). Qed.
+
+(* ------------------------------------------------------------------------------------- *)
+(** * 8. PMSI tunnel attribute (construct-only family; model/YPmsi.v, tied by the correspondence run of
+      harness/props/c08.py on PMSITunnel.construct / parse) *)
+From YV Require Import model.YPmsi proof.WalkerPmsi.
+
+(** whatever the inputs (any integers for flags / type / label, either address family for the tunnel
+    endpoint, any [evpn_overlay] argument): when PMSITunnel.construct returns octets they are exactly
+    one attribute block of type 22 that the walker accepts - optional transitive flags, a 1-octet
+    length equal to the value, a 3-octet label field and an identifier of the size the tunnel type
+    prescribes; otherwise construction fails ([None] = a Python exception) *)
+Theorem C08_pmsi_valid : forall c ov v b,
+  pmsi_construct ov v = Some b -> attr_block c c_ATTR_PMSITunnel_ID b.
+Proof. exact pmsi_construct_block. Qed.
+Print Assumptions C08_pmsi_valid.
+
+(** ... it is 12 or 24 octets long ... *)
+Theorem C08_pmsi_size : forall ov v b, pmsi_construct ov v = Some b -> len b = 12 \/ len b = 24.
+Proof. exact pmsi_construct_size. Qed.
+Print Assumptions C08_pmsi_size.
+
+(** ... and nothing in range is refused (ingress replication; 20-bit label, or 24-bit VNI under a
+    VXLAN / NVGRE overlay): the theorem above is not vacuous on any such input *)
+Theorem C08_pmsi_in_range_constructs : forall ov v,
+  pmsi_in_range ov v = true -> exists b, pmsi_construct ov v = Some b.
+Proof. exact pmsi_construct_total. Qed.
+Print Assumptions C08_pmsi_in_range_constructs.
+
+(** the label field: what construct_pmsi_label writes for a 20-bit label / 24-bit VNI is what
+    parse_mpls_label / parse_vni reads *)
+Theorem C08_pmsi_label_field : forall z l,
+  ((0 <= z < 2 ^ 20)%Z -> pack3_of_4 (z * 16) = Some l -> unbe l / 16 = Z.to_N z) /\
+  ((0 <= z < 2 ^ 24)%Z -> pack3_of_4 z = Some l -> unbe l = Z.to_N z).
+Proof. intros z l. split; [apply pmsi_label_roundtrip_mpls | apply pmsi_label_roundtrip_vni]. Qed.
+Print Assumptions C08_pmsi_label_field.
+
+(** NOT refused although it does not fit: a label of more than 20 bits that fits the 32-bit word loses
+    its high octet - structurally valid, but another label (2^20+5 goes out as 5).  Outside what C08
+    states (the octets are well-formed); recorded because the model shows it. *)
+Theorem C08_pmsi_label_truncated_witness :
+  exists b, pmsi_construct OvOff pmsi_truncated_input = Some b /\
+            parsed_label (pmsi_parse false (value_of b)) = Some 5.
+Proof. exact pmsi_label_truncated_witness. Qed.
+Print Assumptions C08_pmsi_label_truncated_witness.
+
+Example C08_pmsi_nonvacuous :
+  pmsi_construct OvOff (mk_pmsi 0 6 1234 false 3232238090) =
+    Some [192; 22; 9; 0; 6; 0; 77; 32; 192; 168; 10; 10] /\
+  pmsi_construct (OvOn true 8) (mk_pmsi 1 6 60001 true 1) =
+    Some ([192; 22; 21; 1; 6; 0; 234; 97] ++ repeat 0 15 ++ [1]) /\
+  pmsi_construct OvOff (mk_pmsi 0 0 1 false 1) = None /\
+  pmsi_construct (OvOn true 10) (mk_pmsi 0 6 1 false 1) = None /\
+  pmsi_construct OvOff (mk_pmsi 256 6 1 false 1) = None /\
+  pmsi_construct OvOff (mk_pmsi 0 6 (2 ^ 28) false 1) = None.
+Proof. vm_compute. repeat split. Qed.
